@@ -59,6 +59,10 @@ func parseUUID(buf []byte) (uuid meta.UUID) {
 	if _, b := readUntil(buf, ':'); len(b) > 0 {
 		buf = b
 	}
+	// a second prefix, as in "urn:uuid:<uuid>"
+	if _, b := readUntil(buf, ':'); len(b) > 0 {
+		buf = b
+	}
 	err := uuid.UnmarshalText(buf)
 	if err != nil {
 		if DebugMode {
